@@ -114,6 +114,8 @@ func randPolicy(r *rand.Rand, faults bool) *Policy {
 	p.Batch = pick(r, "all", "single", "random")
 	p.PDefer = pick(r, 0, 0, 0.3, 0.6)
 	p.CQShuffle = p.Class != "fifo" && r.Intn(2) == 0
+	p.PHoldCQ = pick(r, 0, 0, 0.2, 0.5)
+	p.MaxHold = 3
 	if faults && r.Intn(2) == 0 {
 		p.PPre = pick(r, 0, 0.05, 0.2)
 		p.PPost = pick(r, 0, 0.05, 0.2)
